@@ -617,6 +617,12 @@ pub fn leaf_strategy(g: ArrGen) -> BoxedStrategy<ArrSpec> {
     proptest::strategy::Union::new_weighted(opts).boxed()
 }
 
+/// A delta-min Curve cannot be derived from a model that releases nothing within the requested
+/// prefix: `Never`, or an approximated Poisson process (whose bound is 0 on short intervals).
+fn no_curve_of(a: &ArrSpec) -> bool {
+    a.never_arrives() || a.any(&|x| matches!(x, ArrSpec::Poisson { .. }))
+}
+
 /// nested arrival specs
 pub fn arr_strategy(g: ArrGen) -> BoxedStrategy<ArrSpec> {
     let leaf = leaf_strategy(g);
@@ -662,13 +668,13 @@ pub fn arr_strategy(g: ArrGen) -> BoxedStrategy<ArrSpec> {
                 1,
                 (inner.clone(), 1usize..14)
                     // (a delta-min Curve cannot represent a process that never releases anything)
-                    .prop_map(|(i, n)| if i.never_arrives() { i } else { ArrSpec::CurveOfJobs { inner: i.boxed(), n } })
+                    .prop_map(|(i, n)| if no_curve_of(&i) { i } else { ArrSpec::CurveOfJobs { inner: i.boxed(), n } })
                     .boxed(),
             ));
             opts.push((
                 1,
                 (inner.clone(), 1..=6 * tmax)
-                    .prop_map(|(i, h)| if i.never_arrives() { i } else { ArrSpec::CurveOfUntil { inner: i.boxed(), h } })
+                    .prop_map(|(i, h)| if no_curve_of(&i) { i } else { ArrSpec::CurveOfUntil { inner: i.boxed(), h } })
                     .boxed(),
             ));
         }
@@ -682,7 +688,7 @@ pub fn arr_strategy(g: ArrGen) -> BoxedStrategy<ArrSpec> {
             opts.push((
                 1,
                 (inner.clone(), 1..=6 * tmax)
-                    .prop_map(|(i, h)| if i.never_arrives() { i } else { ArrSpec::CurveFromAcp { inner: ArrSpec::AcpOf { inner: i.boxed(), h }.boxed() } })
+                    .prop_map(|(i, h)| if no_curve_of(&i) { i } else { ArrSpec::CurveFromAcp { inner: ArrSpec::AcpOf { inner: i.boxed(), h }.boxed() } })
                     .boxed(),
             ));
         }
